@@ -714,6 +714,24 @@ class Interp:
                 if len(args) != len(a0_) or any(x_ is not y_ and x_ != y_ for x_, y_ in zip(args, a0_)) or kwargs != k0_:
                     raise Unsupported("a composed function calls the function composed so far with other arguments than its own")
                 return holder_["fold_val"]
+            if f.kind == "sig_bind":
+                # inspect.signature(fn).bind(*a, **k).arguments: the arguments that were GIVEN, by parameter name
+                fi_ = f.target.attrs["fi"]
+                a_ = fi_.node.args
+                names_ = [p_.arg for p_ in a_.posonlyargs + a_.args][(1 if f.target.attrs.get("skip_self") else 0):]
+                if len(args) > len(names_) and a_.vararg is None:
+                    raise PathRaises("TypeError: too many positional arguments", node)
+                given = dict(zip(names_, args))
+                if a_.vararg is not None and len(args) > len(names_):
+                    given[a_.vararg.arg] = tuple(args[len(names_):])
+                known_ = set(names_) | {p_.arg for p_ in a_.kwonlyargs}
+                for k_, v_ in kwargs.items():
+                    if k_ in given:
+                        raise PathRaises(f"TypeError: multiple values for argument '{k_}'", node)
+                    if k_ not in known_ and a_.kwarg is None:
+                        raise PathRaises(f"TypeError: got an unexpected keyword argument '{k_}'", node)
+                    given[k_] = v_
+                return Obj("inspect.BoundArguments", "bound", {"arguments": given})
             if f.kind == "memo_clear":
                 self.memo.pop(f.target, None)
                 return None
@@ -946,7 +964,7 @@ class Interp:
             ps = [p.arg for p in fi.node.args.args + fi.node.args.kwonlyargs]
             if isinstance(f, BoundMethod):
                 ps = ps[1:]
-            return Obj("inspect.Signature", "sig", {"parameters": {p: p for p in ps}})
+            return Obj("inspect.Signature", "sig", {"parameters": {p: p for p in ps}, "fi": fi, "skip_self": isinstance(f, BoundMethod)})
         if name == "torch.distributions.utils.broadcast_all":
             return tuple(args)
         if name.startswith("torch.distributions") or name.startswith("torch.quasirandom"):
@@ -1744,6 +1762,10 @@ class Interp:
         return self.getattr_value(o, e.attr, e)
 
     def getattr_value(self, o, attr, node=None, call=False):
+        if isinstance(o, Obj) and o.cls == "inspect.Signature" and attr in ("bind", "bind_partial"):
+            return Partial("sig_bind", o)
+        if isinstance(o, Obj) and o.cls == "inspect.BoundArguments" and attr == "arguments":
+            return o.attrs["arguments"]
         if isinstance(o, (BoundMethod, FuncInfo)) and attr in ("cache_clear", "__wrapped__", "__name__"):
             fi_ = o.fi if isinstance(o, BoundMethod) else o
             if attr == "__name__":
